@@ -21,14 +21,14 @@ import re
 with_part, without_part = (re.split(r"== demo against the unchanged[^\n]*", sec, maxsplit=1) + [""])[:2]
 meta = {
     "property": prop, "summary": summary, "needs": needs, "caught_by": caught, "base_commit": base,
-    "written_by": "independent sub-agent (third round) given only the property text, a scratch worktree and a list of code sites to avoid",
+    "written_by": "independent sub-agent (sixth round) given only the property text, a scratch worktree and a list of code sites to avoid",
     "confirmed": {
         "compiles_and_existing_suite_passes_with_change": "ctest re-run by me in the scratch worktree with the change applied (tools_seed_confirm.sh): " + ("100% passed" if suite_ok else "NOT CONFIRMED"),
         "demo_fails_with_change": "exit=1" in with_part or "exit=134" in with_part or "exit=139" in with_part,
         "demo_passes_without_change": "exit=0" in without_part and "exit=1" not in without_part,
         "how": "tools_seed_confirm.sh <worktree>: cmake --build --target gtest && ctest in the worktree; demo.cpp compiled against the worktree (3 runs) and against /repo HEAD (3 runs); log in confirm.log",
     },
-    "how_run": "./tools_seed_eval.sh /verif/seeded/%s/patch.diff %s quick %s ; output and replays of that run: seeded/%s/caught_by_%s_quick/" % (sid, prop, sid, sid, prop),
+    "how_run": "tools_seed_eval_wt.sh <scratch worktree carrying the change> %s quick %s (scratch copy of /verif, XENIUM_REPO pointing at the changed tree; /repo untouched); output and replays: seeded/%s/caught_by_*_quick/" % (prop, sid, sid),
 }
 json.dump(meta, open(os.path.join(d, "meta.json"), "w"), indent=1)
 print(sid, "suite_ok=%s demo_with_fails=%s demo_without_passes=%s" % (suite_ok, meta["confirmed"]["demo_fails_with_change"], meta["confirmed"]["demo_passes_without_change"]))
